@@ -22,8 +22,25 @@
 (* description, burst of the limiter) is compared with Choose; the          *)
 (* transcription's prediction names the class of a deviation.               *)
 (*                                                                          *)
-(* Part 2, enforcement (WindowOK): used by RateLimitTrace.tla on bursts     *)
-(* recorded from the real limiter.                                          *)
+(* Part 2, enforcement. The token bucket is part of the cached limiter       *)
+(* (tok, tat: scaled tokens and the time they were counted; a rule of burst *)
+(* b refills b tokens in Per clock ticks). The transcription follows         *)
+(* NewRateLimiter / RateLimiter.Update / Allow: a new full bucket when the   *)
+(* limiter is made and when Update gets a rule whose limit/burst differ     *)
+(* (constant Rebuild = "limit-burst"; the other values are candidates that  *)
+(* must fail), otherwise the bucket goes on whatever happens to the rule    *)
+(* sets, the suffrage state hash, the membership or the type of the picked  *)
+(* rule. BoundOK is the statement's second sentence on the history: for     *)
+(* every limiter instance (addr, handler) and every window of its requests  *)
+(* during which the rule in force keeps its limit and burst,                 *)
+(* allowed <= burst + rate x window. The constant Tight selects catalogues   *)
+(* of small rules (bursts 1 and 2, the same rule in different rule sets,    *)
+(* zero and no-limit rules) so that histories which mix requests with       *)
+(* Set* / SetMembers / AddNode actions empty the bucket; Warm starts every   *)
+(* history with Request(a1,h1), AddNode(a1). The real code is judged by      *)
+(* RateLimitTrace.tla (InstOK below) on the recorded replays of these        *)
+(* histories and on recorded bursts, with the harness clock read before and  *)
+(* after every call.                                                         *)
 EXTENDS Integers, Sequences, FiniteSets, TLC, Json
 
 CONSTANTS Addrs,      \* subset of {"a1","a2","a3"}: a1 in nets N1 and N2, a2 in N2 only, a3 in no net
@@ -32,7 +49,12 @@ CONSTANTS Addrs,      \* subset of {"a1","a2","a3"}: a1 in nets N1 and N2, a2 in
           InitCfgs,   \* names of initial rule-set configurations (see Cfg)
           FullAlphabet, \* exhaustive runs: also replace the suffrage rule and the default map
           Walk,       \* TRUE: -simulate
-          MaxSteps
+          MaxSteps,
+          Tight,      \* TRUE: catalogues of small rules (the bucket empties within a history)
+          Warm,       \* TRUE: every history starts with Request(a1, h1, no client id), AddNode(a1)
+          Per,        \* clock ticks in which a rule refills its whole burst
+          Rebuild     \* when RateLimiter.Update makes a new (full) bucket: "limit-burst" = the code;
+                      \* candidates that break the bound: "type-checksum", "always"
 
 Nil == [nil |-> TRUE, v |-> <<>>]       \* a rule set that is not set (nil interface)
 Set(x) == [nil |-> FALSE, v |-> x]      \* a rule set
@@ -40,7 +62,9 @@ NodeOf == [a \in {"a1", "a2", "a3"} |-> IF a = "a1" THEN "n1" ELSE IF a = "a2" T
 InNet == [nn \in {"N1", "N2"} |-> IF nn = "N1" THEN {"a1"} ELSE {"a1", "a2"}]
 H2 == {"h1", "h2"}
 
-\* a rule map: handler -> burst of its rule (every rule has its own burst, so the burst names the rule), 0 = no rule
+\* a rule map: handler -> burst of its rule, 0 = no rule, -1 = the rule that rejects everything (limit 0),
+\* -2 = the no-limit rule. In the wide catalogues (A, B, C, ...) every rule has its own burst, so the burst names the
+\* rule; in the tight ones (T, U, Z, N) the same rule stands in different rule sets (type and description name it).
 AllH(b)   == [hh \in H2 |-> b]
 OnlyH1(b) == [hh \in H2 |-> IF hh = "h1" THEN b ELSE 0]
 NoRule    == [hh \in H2 |-> 0]
@@ -48,19 +72,29 @@ BuiltIn   == 33                          \* defaultRateLimiter: 33 / 3s
 
 \* catalogues of rule sets (the harness builds the real ones from the JSON of these values)
 CidSets  == [none |-> Nil,
+             T |-> Set([c1 |-> AllH(2)]),
              A |-> Set([c1 |-> AllH(101)]),
              B |-> Set([c1 |-> AllH(101), c2 |-> AllH(102)]),
              C |-> Set([c2 |-> OnlyH1(103)])]
 NetSets  == [none |-> Nil,
+             T |-> Set(<<[net |-> "N1", m |-> AllH(1)]>>),
              A |-> Set(<<[net |-> "N1", m |-> AllH(201)]>>),
              B |-> Set(<<[net |-> "N2", m |-> AllH(202)], [net |-> "N1", m |-> AllH(203)]>>),
              C |-> Set(<<[net |-> "N1", m |-> AllH(204)], [net |-> "N2", m |-> AllH(205)]>>)]
 NodeSets == [none |-> Nil,
+             T |-> Set([n1 |-> AllH(2), n2 |-> AllH(1)]),
              A |-> Set([n1 |-> AllH(301)]),
              B |-> Set([n1 |-> OnlyH1(302), n2 |-> AllH(303)])]
-SufSets  == [builtin |-> AllH(900), A |-> AllH(401), E |-> NoRule]
-DefSets  == [builtin |-> AllH(BuiltIn), A |-> OnlyH1(501), B |-> AllH(502)]
-MemberSets == {{}, {"n1"}, {"n1", "n2"}}
+SufSets  == [builtin |-> AllH(900), A |-> AllH(401), E |-> NoRule, T |-> AllH(2), U |-> AllH(1), Z |-> AllH(-1), N |-> AllH(-2)]
+DefSets  == [builtin |-> AllH(BuiltIn), A |-> OnlyH1(501), B |-> AllH(502), T |-> AllH(2), U |-> AllH(1), Z |-> AllH(-1), N |-> AllH(-2)]
+MemberSets == IF Tight /\ "a2" \notin Addrs THEN {{}, {"n1"}} ELSE {{}, {"n1"}, {"n1", "n2"}}
+
+\* the rule sets the Set* actions choose from
+CidKeys  == IF Tight THEN {"none", "T"} ELSE {"none", "A", "B", "C"}
+NetKeys  == IF Tight THEN {"none", "T"} ELSE {"none", "A", "B", "C"}
+NodeKeys == IF Tight THEN {"none", "T"} ELSE {"none", "A", "B"}
+SufKeys  == IF Tight THEN {"T", "U"} \cup (IF FullAlphabet THEN {"Z", "N"} ELSE {}) ELSE {"builtin", "A", "E"}
+DefKeys  == IF Tight THEN {"T", "U"} \cup (IF FullAlphabet THEN {"Z", "N"} ELSE {}) ELSE {"builtin", "A", "B"}
 
 VARIABLES cid, cidAt,        \* client-id rule set and the time it was set
           nets, netsAt,
@@ -119,21 +153,41 @@ Prec(a, hd, c, lt, lat) ==
   ELSE IF def[hd] # 0 THEN <<"defaultmap", def[hd], "", "", TRUE>>
   ELSE <<"default", BuiltIn, "", "", TRUE>>
 
-Lim(t, b, d, cs) == [t |-> t, b |-> b, desc |-> d, cs |-> cs, at |-> now]
+(* the token bucket of a limiter, in units of 1/Per token: a rule of burst b > 0 holds at most b * Per units, gains b
+   units per clock tick and a request costs Per units (golang.org/x/time/rate with limit = b / Per per tick). *)
+Full(b) == IF b > 0 THEN b * Per ELSE 0
+Min(x, y) == IF x <= y THEN x ELSE y
+
+\* NewRateLimiter: a new limiter has a full bucket
+New(t, b, d, cs) == [t |-> t, b |-> b, desc |-> d, cs |-> cs, at |-> now, tok |-> Full(b), tat |-> now]
+
+\* RateLimiter.Update: the rate.Limiter is replaced by a new one (full bucket) ...
+Rebuilds(l, t, b, cs) ==
+  CASE Rebuild = "limit-burst"   -> l.b # b                                \* ... only if limit or burst differ (the code)
+    [] Rebuild = "type-checksum" -> l.b # b \/ l.t # t \/ l.cs # cs         \* candidate: also when type or checksum differ
+    [] Rebuild = "always"        -> TRUE                                   \* candidate: at every Update
+Upd(l, t, b, d, cs) == [t |-> t, b |-> b, desc |-> d, cs |-> cs, at |-> now,
+                        tok |-> IF Rebuilds(l, t, b, cs) THEN Full(b) ELSE l.tok,
+                        tat |-> IF Rebuilds(l, t, b, cs) THEN now ELSE l.tat]
+
+\* RateLimiter.Allow on the limiter l at the current time
+Level(l)   == IF l.b > 0 THEN Min(Full(l.b), l.tok + l.b * (now - l.tat)) ELSE 0
+Allowed(l) == IF l.b = -2 THEN TRUE ELSE IF l.b <= 0 THEN FALSE ELSE Level(l) >= Per
+After(l)   == [l EXCEPT !.tok = IF Allowed(l) /\ l.b > 0 THEN Level(l) - Per ELSE Level(l), !.tat = now]
 
 \* RateLimiterRules.Rule on the limiter l cached for (a, hd): <<limiter', path>>
 Impl(a, hd, c, l) ==
   IF l = None
-  THEN LET p == Prec(a, hd, c, "", 0) IN <<Lim(p[1], p[2], p[3], p[4]), "fresh">>
+  THEN LET p == Prec(a, hd, c, "", 0) IN <<New(p[1], p[2], p[3], p[4]), "fresh">>
   ELSE IF c # "" /\ ~cid.nil /\ l.t = "clientid" /\ l.at >= cidAt THEN <<l, "cached-clientid">>
   ELSE IF ~nets.nil /\ l.t = "net" /\ l.at >= netsAt THEN <<l, "cached-net">>
   ELSE IF a \in known /\ ~nodes.nil /\ l.t = "node" /\ l.at >= nodesAt THEN <<l, "cached-node">>
   ELSE IF /\ a \in known /\ l.t = "suffrage" /\ l.at >= sufAt /\ NodeOf[a] \in members
           /\ (stateHash = l.cs \/ suf[hd] # 0)
        THEN IF stateHash = l.cs THEN <<l, "cached-suffrage">>
-            ELSE <<Lim("suffrage", suf[hd], "", stateHash), "suffrage-rehash">>
+            ELSE <<Upd(l, "suffrage", suf[hd], "", stateHash), "suffrage-rehash">>
   ELSE LET p == Prec(a, hd, c, l.t, l.at)
-       IN IF p[5] THEN <<Lim(p[1], p[2], p[3], p[4]), "re-evaluated">> ELSE <<l, "cached-defaultmap">>
+       IN IF p[5] THEN <<Upd(l, p[1], p[2], p[3], p[4]), "re-evaluated">> ELSE <<l, "cached-defaultmap">>
 
 ---------------------------------------------------------------------------
 Cfg == [plain |-> [cid |-> "none", nets |-> "none", nodes |-> "none", suf |-> "builtin", def |-> "builtin", mem |-> {}],
@@ -141,7 +195,13 @@ Cfg == [plain |-> [cid |-> "none", nets |-> "none", nodes |-> "none", suf |-> "b
         cidc  |-> [cid |-> "C",    nets |-> "A",    nodes |-> "none", suf |-> "builtin", def |-> "A",       mem |-> {}],
         netn  |-> [cid |-> "A",    nets |-> "B",    nodes |-> "A",    suf |-> "A",       def |-> "builtin", mem |-> {"n1"}],
         nodes |-> [cid |-> "A",    nets |-> "none", nodes |-> "B",    suf |-> "A",       def |-> "B",       mem |-> {"n1", "n2"}],
-        sufr  |-> [cid |-> "none", nets |-> "none", nodes |-> "none", suf |-> "A",       def |-> "A",       mem |-> {"n1"}]]
+        sufr  |-> [cid |-> "none", nets |-> "none", nodes |-> "none", suf |-> "A",       def |-> "A",       mem |-> {"n1"}],
+        \* tight: suffrage rule 1 over default map 2; the same rule 1 in both; node rule 2 over suffrage rule 2 over default
+        \* map 1; client-id rule 2 over net rule 1 over default map 2
+        tsuf  |-> [cid |-> "none", nets |-> "none", nodes |-> "none", suf |-> "U",       def |-> "T",       mem |-> {"n1"}],
+        tsame |-> [cid |-> "none", nets |-> "none", nodes |-> "none", suf |-> "U",       def |-> "U",       mem |-> {"n1"}],
+        tnode |-> [cid |-> "none", nets |-> "none", nodes |-> "T",    suf |-> "T",       def |-> "U",       mem |-> {"n1"}],
+        tcid  |-> [cid |-> "T",    nets |-> "T",    nodes |-> "none", suf |-> "U",       def |-> "T",       mem |-> {}]]
 
 Init == \E k \in InitCfgs :
    /\ cid = CidSets[Cfg[k].cid] /\ nets = NetSets[Cfg[k].nets] /\ nodes = NodeSets[Cfg[k].nodes]
@@ -152,7 +212,7 @@ Init == \E k \in InitCfgs :
    /\ step = ""
 
 Rec(r) == /\ hist' = Append(hist, r)
-          /\ step' = ToJson(hist')
+          /\ step' = IF n + 1 = MaxSteps THEN ToJson(hist') ELSE ""      \* complete histories only (ToJson is slow)
           /\ n' = n + 1
           /\ now' = now + 1
 
@@ -162,10 +222,10 @@ RS == <<cid, cidAt, nets, netsAt, nodes, nodesAt, suf, sufAt, members, stateHash
 Request(a, hd, c) ==
   LET r == Impl(a, hd, c, cache[<<a, hd>>])
       w == Choose(a, hd, c)
-  IN /\ cache' = [cache EXCEPT ![<<a, hd>>] = r[1]]
+  IN /\ cache' = [cache EXCEPT ![<<a, hd>>] = After(r[1])]      \* RateLimitHandler.allow: Rule, then Allow on its limiter
      /\ UNCHANGED <<RS, known>>
      /\ Rec([a |-> "Request", addr |-> a, h |-> hd, c |-> c, node |-> IF a \in known THEN NodeOf[a] ELSE "",
-             want |-> w, impl |-> <<r[1].t, r[1].b, r[1].desc>>, path |-> r[2]])
+             want |-> w, impl |-> <<r[1].t, r[1].b, r[1].desc>>, path |-> r[2], at |-> now, ok |-> Allowed(r[1])])
 
 \* RateLimitHandler.AddNode: only for an address that has made a request, only once
 AddNode(a) == /\ known' = IF \E hd \in Handlers : cache[<<a, hd>>] # None THEN known \cup {a} ELSE known
@@ -198,23 +258,25 @@ Cids == ClientIds \cup {""}
 RandomAction(k) ==
   CASE k \in 1..10 -> Request(R(Addrs), R(Handlers), R(Cids))
     [] k = 11 \/ k = 12 -> AddNode(R(Addrs))
-    [] k = 13 -> SetCid(R(DOMAIN CidSets))
-    [] k = 14 -> SetNets(R(DOMAIN NetSets))
-    [] k = 15 -> SetNodes(R(DOMAIN NodeSets))
-    [] k = 16 -> SetSuf(R(DOMAIN SufSets))
-    [] k = 17 -> SetDef(R(DOMAIN DefSets))
+    [] k = 13 -> SetCid(R(CidKeys))
+    [] k = 14 -> SetNets(R(NetKeys))
+    [] k = 15 -> SetNodes(R(NodeKeys))
+    [] k = 16 -> SetSuf(R(SufKeys))
+    [] k = 17 -> SetDef(R(DefKeys))
     [] k = 18 -> SetMembers(R(MemberSets))
 
 Next == /\ n < MaxSteps
-        /\ IF Walk THEN RandomAction(R(1..18))
+        /\ IF Warm /\ n = 0 THEN Request("a1", "h1", "")
+           ELSE IF Warm /\ n = 1 THEN AddNode("a1")
+           ELSE IF Walk THEN RandomAction(R(1..18))
            ELSE \/ \E a \in Addrs, hd \in Handlers, c \in Cids : Request(a, hd, c)
                 \/ \E a \in Addrs : AddNode(a)
-                \/ \E k \in DOMAIN CidSets : SetCid(k)
-                \/ \E k \in DOMAIN NetSets : SetNets(k)
-                \/ \E k \in DOMAIN NodeSets : SetNodes(k)
+                \/ \E k \in CidKeys : SetCid(k)
+                \/ \E k \in NetKeys : SetNets(k)
+                \/ \E k \in NodeKeys : SetNodes(k)
                 \/ \E m \in MemberSets : SetMembers(m)
-                \/ FullAlphabet /\ \E k \in DOMAIN SufSets : SetSuf(k)
-                \/ FullAlphabet /\ \E k \in DOMAIN DefSets : SetDef(k)
+                \/ (FullAlphabet \/ Tight) /\ \E k \in SufKeys : SetSuf(k)
+                \/ (FullAlphabet \/ Tight) /\ \E k \in DefKeys : SetDef(k)
 
 Spec == Init /\ [][Next]_vars
 
@@ -244,15 +306,31 @@ PrecedenceOK == IsReq =>
                               /\ NetMatch(Last.addr, Last.h) = 0 /\ CidRule(Last.c, Last.h) = 0)
 
 ---------------------------------------------------------------------------
-(* Part 2: enforcement. obs is a sequence of [tb, ta, ok]: harness clock (microseconds) before and after the
-   call and whether it was allowed. For a rule of `burst` per `per` ns, any window i..j must satisfy
-   allowed <= burst + rate * window, the window measured generously (from before call i to after
-   call j, which contains the limiter's own clock readings); in integers:
-   allowed * per <= burst * per + burst * (ta_j - tb_i). *)
-RECURSIVE CountOK(_, _, _)
-CountOK(obs, i, j) == IF i > j THEN 0 ELSE (IF obs[i].ok = 1 THEN 1 ELSE 0) + CountOK(obs, i + 1, j)
+(* Part 2: enforcement. THE STATEMENT's second sentence on the history of the model: take the requests of one limiter
+   instance (addr, handler) from request i to the last one; if the rule in force (limit, burst) is the same for all of
+   them, the allowed ones are at most burst + rate x (time from i to the last). Whatever else happens in between -
+   rule sets replaced, suffrage state hash, membership, AddNode, the type of the picked rule, other instances - gives
+   no new tokens. *)
+ReqsOf(a, hd) == {i \in 1..Len(hist) : hist[i].a = "Request" /\ hist[i].addr = a /\ hist[i].h = hd}
+BoundOK == IsReq =>
+  LET S == ReqsOf(Last.addr, Last.h)
+      b == Last.impl[2]
+  IN b > 0 => \A i \in S : (\A m \in S : m >= i => hist[m].impl[2] = b) =>
+                 Cardinality({m \in S : m >= i /\ hist[m].ok}) * Per <= b * Per + b * (Last.at - hist[i].at)
+ZeroOK    == (IsReq /\ Last.impl[2] = -1) => ~Last.ok
 
-WindowOK(burst, per, obs) ==
-  \A i \in 1..Len(obs) : \A j \in i..Len(obs) :
-     CountOK(obs, i, j) * per <= burst * per + burst * (obs[j].ta - obs[i].tb)
+(* Recorded executions of the real limiter. s is the sequence of the requests of ONE limiter instance in call order,
+   each <<burst, per, tb, ta, ok, step>>: the rule of the limiter that judged the request as RateLimiterResult reports
+   it (burst per `per` time units; burst -1 = the rule that rejects everything, -2 = no limit), the harness clock
+   (same unit, tb rounded down, ta up) read before and after the call, ok = 1 if it was allowed, step = its place in
+   the history. The limiter reads its own clock between tb and ta, so the time from tb_i to ta_j contains the
+   limiter's window for the calls i..j and the bound below is implied by the statement without a clock hook.
+   For every window i..j during which the rule keeps its burst and per:
+      allowed <= burst + (burst / per) * (ta_j - tb_i),   in integers  (allowed - burst) * per <= burst * (ta_j - tb_i). *)
+SameRule(s, i, j) == \A m \in i..j : s[m][1] = s[i][1] /\ s[m][2] = s[i][2]
+RECURSIVE CountOK(_, _, _)
+CountOK(s, i, j) == IF i > j THEN 0 ELSE (IF s[i][5] = 1 THEN 1 ELSE 0) + CountOK(s, i + 1, j)
+WinOK(s, i, j) == (s[i][1] > 0 /\ SameRule(s, i, j)) => (CountOK(s, i, j) - s[i][1]) * s[i][2] <= s[i][1] * (s[j][4] - s[i][3])
+WindowOK(s) == \A i \in 1..Len(s) : \A j \in i..Len(s) : WinOK(s, i, j)
+ZeroRuleOK(s) == \A m \in 1..Len(s) : s[m][1] = -1 => s[m][5] = 0
 =============================================================================
